@@ -51,7 +51,7 @@ def run_c01(tier, seed, res):
                      "matched_chars_2_bytes", "matched_chars_3_bytes", "matched_chars_4_bytes", "window_ge_9",
                      "texts_longer_than_65535", "sentences_predicted_twice_in_a_row",
                      "cases_with_entry_cancelling_its_suffix_chain", "cases_scored_in_builds_with_alternative_scorers",
-                     "predictors_restored_from_their_serialised_form"],
+                     "predictors_restored_from_their_serialised_form", "default_sentences_predicted_directly"],
     }
 
 
@@ -61,13 +61,25 @@ ASAN_ENV = {"ASAN_OPTIONS": "halt_on_error=1:abort_on_error=1:detect_leaks=0:all
 # ------------------------------------------------------------------ C06
 def run_c06(tier, seed, res):
     E.run_workload(res, "mon", "C06", sz(tier, 30000, 1000000), tier, seed)
+    # the tags a user of the predict tool sees (order of filters and tag filling in the tool)
+    sub = E.Results()
+    E.run_workload(sub, "mon", "C20p", sz(tier, 40, 600), tier, seed + 7, extra=cli_extra("C06"), per_case_timeout=30.0, tag="c06-cli")
+    for v in sub.violations:
+        if "predict_output_differs" in v["sig"] and "predict_tags" in v["sig"]:
+            v = dict(v)
+            v["sig"] = "C06:predict_tool:" + v["sig"].split(":", 1)[1]
+            res.violations.append(v)
+    res.incidents.extend(sub.incidents)
+    res.runs.extend(sub.runs)
+    res.evals += sub.evals
+    res.add_counter("predict_tool_streams_with_tag_prediction", sub.counters.get("models_with_tag_models", 0))
     if tier == "thorough":
         E.run_workload(res, "asan", "C06", 20000, tier, seed + 1, env=ASAN_ENV)
     return {
         "rule": "case = generated model with >= 1 tag model + texts; after predict (boundaries kept or overwritten so that modelled "
                 "tokens occur) and fill_tags every tag, n_tags and (score storing on) every candidate score is compared with the "
                 "reference tagger; non-trivial iff at least one token with a tag model was checked",
-        "required": ["fill_tags_runs_with_unknown_boundaries_present", "models_with_more_than_65536_tag_models", "cases_where_no_character_pattern_occurs_in_any_text", "predictors_restored_from_their_serialised_form", "sentences_reanalysed_by_tagless_tag_predictor", "tokens_with_tag_model", "categories_with_0_candidates", "categories_with_1_candidate",
+        "required": ["sentences_refilled_after_boundary_edit", "predict_tool_streams_with_tag_prediction", "fill_tags_runs_with_unknown_boundaries_present", "models_with_more_than_65536_tag_models", "cases_where_no_character_pattern_occurs_in_any_text", "predictors_restored_from_their_serialised_form", "sentences_reanalysed_by_tagless_tag_predictor", "tokens_with_tag_model", "categories_with_0_candidates", "categories_with_1_candidate",
                      "categories_with_2+_candidates", "tag_ties", "tag_ngram_matched_at_rel_0", "tag_ngram_matched_at_rel_1",
                      "tag_ngram_matched_at_rel_2", "models_with_more_than_8_classes",
                      "tokens_with_candidate_scores_compared", "models_with_empty_char_boundary_model",
@@ -106,7 +118,8 @@ def run_c14(tier, seed, res):
                      "type_scorer_cached_table(Wt<=3,no_tags)", "type_scorer_automaton(Wt>3)",
                      "cases_with_weight_vectors_longer_than_8", "cases_with_weight_vectors_up_to_8",
                      "predictors_serialised_larger_than_16MiB", "predictor_round_trips_in_other_feature_builds",
-                     "cases_with_value_equal_weight_vectors_at_different_lengths", "predictors_deserialised_from_odd_buffer_offset"],
+                     "cases_with_value_equal_weight_vectors_at_different_lengths", "predictors_deserialised_from_odd_buffer_offset",
+                     "trailing_bytes_resembling_structured_data"],
     }
 
 
@@ -139,7 +152,7 @@ def run_c02(tier, seed, res):
                      "sentences_via_from_partial_annotation", "sentences_via_update_raw_after_text_of_same_shape",
                      "fallback_sentences_after_rejected_update_checked", "sentences_predicted_edited_and_predicted_again",
                      "sentences_longer_than_65535_chars", "sentences_via_from_tokenized_with_redundant_escapes",
-                     "predict_tool_lines_checked_for_lossless_surfaces"],
+                     "predict_tool_lines_checked_for_lossless_surfaces", "texts_starting_with_u_feff"],
         "exhaustive": True,
         "extra": {"exhaustive_scope": "all 3^(n-1) label vectors for n = 1..%d (the random part is sampled)" % nmax},
     }
@@ -257,7 +270,7 @@ def run_c07(tier, seed, res):
                      "model_round_trips_in_reduced_feature_builds", "models_with_repeated_dictionary_word",
                      "models_with_dictionary_word_longer_than_32767_bytes",
                      "runs_with_failing_output_device:manipulate_model", "runs_with_failing_output_device:convert_kytea_model",
-                     "truncated_tool_written_files_offered_to_tools"],
+                     "truncated_tool_written_files_offered_to_tools", "models_rewritten_in_place"],
         "exhaustive": True,
         "extra": {"exhaustive_scope": "per fully enumerated model: all proper prefixes, all reader/writer fault positions, all 25x255 header byte changes"},
     }
@@ -266,6 +279,18 @@ def run_c07(tier, seed, res):
 # ------------------------------------------------------------------ C08
 def run_c08(tier, seed, res):
     E.run_workload(res, "mon", "C08h", sz(tier, 40000, 1500000), tier, seed)
+    # the predict tool reuses one sentence object for the whole stream: each output line must be what that line alone gives
+    sub = E.Results()
+    E.run_workload(sub, "mon", "C20p", sz(tier, 40, 600), tier, seed + 11, extra=cli_extra("C08"), per_case_timeout=30.0, tag="c08-cli")
+    for v in sub.violations:
+        if "predict_output_differs" in v["sig"] or "unescape" in v["sig"] or "crash" in v["sig"]:
+            v = dict(v)
+            v["sig"] = "C08:predict_tool:" + v["sig"].split(":", 1)[1]
+            res.violations.append(v)
+    res.incidents.extend(sub.incidents)
+    res.runs.extend(sub.runs)
+    res.evals += sub.evals
+    res.add_counter("predict_tool_streams_checked_line_by_line", sub.cases)
     # the sentence type has feature-gated fields: annotation-bearing histories inside reduced builds
     names = ["no-tags", "alloc-only"]
     build_many(["feat:" + x for x in names])
@@ -285,7 +310,7 @@ def run_c08(tier, seed, res):
                 "shuffled text list for several rounds, results compared with a sequential baseline - natively, under Miri's data-race detector with "
                 "several scheduler seeds (tiny models) and, thorough tier, under ThreadSanitizer with an instrumented std; the set of interleavings "
                 "seen natively is not observable and is not claimed; distinct = distinct (history, final predictor, text) / (model, threads, rounds)",
-        "required": ["histories_with_ascii_raw_then_annotated_multibyte_then_ascii_raw", "histories_ending_on_permutation_of_final_text", "histories_ending_on_final_text_itself_with_labels", "intermediate_states_read", "reduced_build_histories_with_tagged_state_before_final_update", "histories_with_tagged_state_before_final_update", "histories_with_other_predictor_before_final",
+        "required": ["histories_where_another_predictor_just_analysed_the_final_text", "predict_tool_streams_checked_line_by_line", "histories_with_ascii_raw_then_annotated_multibyte_then_ascii_raw", "histories_ending_on_permutation_of_final_text", "histories_ending_on_final_text_itself_with_labels", "intermediate_states_read", "reduced_build_histories_with_tagged_state_before_final_update", "histories_with_tagged_state_before_final_update", "histories_with_other_predictor_before_final",
                      "histories_with_failed_update_directly_before_final", "final_predictor_with_tags",
                      "final_predictor_storing_scores", "history_ops", "concurrent_predictions", "threads_started",
                      "cases_with_tag_prediction", "histories_with_line_longer_than_4096_chars",
@@ -301,7 +326,7 @@ def run_c15(tier, seed, res):
                 "labels incl. unknown; 0..3 tag slots) x 9 filters (six character types, line breaks, grapheme clusters, pattern tagger with "
                 "random rules); after filter: text, types, tag count, every boundary and every tag compared with the reference rule "
                 "(grapheme clusters from unicode-segmentation over the whole string); filter applied twice == once; distinct = distinct sentences",
-        "required": ["fallback_sentences_filtered", "sentences_where_extended_and_legacy_clusters_differ", "sentences_with_empty_string_tag",
+        "required": ["sentences_with_rule_for_token_of_63_or_more_chars", "sentences_with_tens_of_thousands_of_skipped_tokens", "fallback_sentences_filtered", "sentences_where_extended_and_legacy_clusters_differ", "sentences_with_empty_string_tag",
                      "sentences_with_multi_char_grapheme_cluster", "sentences_with_cr_or_lf", "sentences_with_unknown_boundary",
                      "sentences_with_tags", "single_character_sentences", "sentences_with_cluster_longer_than_64_bytes",
                      "sentences_with_more_than_32_tag_columns",
@@ -325,12 +350,23 @@ def run_c09(tier, seed, res):
                      "configs_with_word_longer_than_bucket", "trained_char_ngrams", "trained_type_ngrams",
                      "trained_dict_words_with_nonzero_weight", "boundaries_scored_with_nonzero_feature_weight",
                      "configs_with_window_0", "configs_with_window_of_8_or_more", "evaluation_sentences_predicted_twice",
-                     "evaluation_sentences_longer_than_65535"] + ["solver_%d" % i for i in range(8)],
+                     "evaluation_sentences_longer_than_65535", "evaluation_sentences_with_all_six_character_types",
+                     "trainings_constructed_so_that_an_ngram_cancels_its_suffix", "trained_models_with_tag_models"] + ["solver_%d" % i for i in range(8)],
     }
 
 
 def run_c10(tier, seed, res):
     E.run_workload(res, "mon", "C10", sz(tier, 40000, 1500000), tier, seed)
+    # the corpus as the train tool reads it from files (LF and CRLF): line terminators are not text
+    sub = E.Results()
+    E.run_workload(sub, "mon", "C11cli", sz(tier, 48, 600), tier, seed + 3, extra=cli_extra("C10"), per_case_timeout=20.0, tag="c10-cli")
+    for v in sub.violations:
+        if v["sig"].startswith("C10:"):
+            res.violations.append(v)
+    res.incidents.extend(sub.incidents)
+    res.runs.extend(sub.runs)
+    res.evals += sub.evals
+    res.add_counter("models_trained_from_crlf_files_inspected", sub.counters.get("models_trained_from_crlf_files_inspected", 0))
     return {
         "rule": "case = corpus mixing fully annotated, partially annotated and unannotated sentences x window / n-gram sizes 0..4 x dictionary; "
                 "the examples stored for the learner (read through the verif-hooks accessor after every add_example) must be exactly one per "
@@ -339,13 +375,26 @@ def run_c10(tier, seed, res):
         "required": ["unknown_boundaries_in_corpus", "annotated_boundaries_in_corpus", "examples_with_feature_count_above_1",
                      "configs_with_window_0", "configs_with_n_greater_than_window", "configs_with_dictionary",
                      "sentences_without_any_annotation", "configs_with_window_above_128_and_long_sentence",
-                     "sentences_equal_to_the_shortest_dictionary_word", "sentences_with_length_at_multiple_of_256"],
+                     "sentences_equal_to_the_shortest_dictionary_word", "sentences_with_length_at_multiple_of_256",
+                     "boundaries_touched_by_more_than_255_dictionary_occurrences", "models_trained_from_crlf_files_inspected"],
     }
 
 
 def run_c11(tier, seed, res):
     E.run_workload(res, "mon", "C11", sz(tier, 22000, 704000), tier, seed, per_case_timeout=5.0)
-    E.run_workload(res, "mon", "C11cli", sz(tier, 48, 1200), tier, seed, extra=cli_extra("C11"), per_case_timeout=20.0)
+    sub = E.Results()
+    E.run_workload(sub, "mon", "C11cli", sz(tier, 48, 1200), tier, seed, extra=cli_extra("C11"), per_case_timeout=20.0)
+    # (what the tool reads from CRLF files belongs to C10 and is reported there)
+    sub.violations = [v for v in sub.violations if not v["sig"].startswith("C10:") and not v["sig"].startswith("C12:")]
+    res.violations.extend(sub.violations)
+    res.incidents.extend(sub.incidents)
+    res.runs.extend(sub.runs)
+    res.evals += sub.evals
+    res.cases += sub.cases
+    res.digests |= sub.digests
+    res.samples.extend(sub.samples)
+    for k2, v2 in sub.counters.items():
+        res.add_counter(k2, v2)
     return {
         "rule": "case = configuration (windows and n-gram sizes 0..4, bucket 1..5, solver = (case/11) mod 8) x corpus class = case mod 11 "
                 "{normal, empty, single sentence, single character, no word boundary, only word boundaries, untagged, partially tagged, "
@@ -356,7 +405,8 @@ def run_c11(tier, seed, res):
                      "cases_with_large_dictionary", "configs_with_type_window_gt_char_window",
                      "configs_with_n_greater_than_window", "configs_with_window_0", "corpora_with_tags",
                      "configs_with_char_window_of_128_or_more", "configs_with_type_window_of_128_or_more",
-                     "dictionaries_with_blank_word", "configs_without_char_ngrams_and_with_unseen_dictionary"] +
+                     "dictionaries_with_blank_word", "configs_without_char_ngrams_and_with_unseen_dictionary",
+                     "corpora_whose_first_line_starts_with_u_feff", "train_cli_runs_on_crlf_files"] +
                     ["solver_%d" % i for i in range(8)] +
                     ["corpus_class_%s" % c for c in ["normal", "empty", "single_sentence", "single_character", "no_word_boundary",
                                                       "only_word_boundaries", "untagged", "partially_tagged", "ambiguous_tags",
@@ -366,6 +416,17 @@ def run_c11(tier, seed, res):
 
 def run_c12(tier, seed, res):
     E.run_workload(res, "mon", "C12", sz(tier, 20000, 600000), tier, seed, per_case_timeout=5.0)
+    # the tokens as the train tool hands them to the trainer (normalised form of every corpus line)
+    sub = E.Results()
+    E.run_workload(sub, "mon", "C11cli", sz(tier, 48, 600), tier, seed + 5, extra=cli_extra("C12"), per_case_timeout=20.0, tag="c12-cli")
+    for v in sub.violations:
+        if v["sig"].startswith("C12:"):
+            res.violations.append(v)
+    res.incidents.extend(sub.incidents)
+    res.runs.extend(sub.runs)
+    res.evals += sub.evals
+    res.add_counter("models_trained_with_normalisation_inspected", sub.counters.get("models_trained_with_normalisation_inspected", 0))
+    res.add_counter("corpus_lines_of_same_width_normaliser_keys", sub.counters.get("corpus_lines_of_same_width_normaliser_keys", 0))
     return {
         "rule": "case = tagged corpus (1..2 categories, absent tags, per-token preferred tag + noise so that single-tag and ambiguous tokens both "
                 "occur, partially annotated sentences, a tag dictionary with tokens absent from the corpus) x n-gram sizes 1..3 x solver; "
@@ -375,7 +436,8 @@ def run_c12(tier, seed, res):
                 "non-trivial iff an evaluation token with known tags was checked",
         "required": ["tokens_seen_with_tags", "tokens_only_in_tag_dictionary", "categories_with_single_tag",
                      "categories_with_several_tags", "tokens_with_three_ambiguous_categories", "evaluation_tokens_with_known_tags",
-                     "candidate_scores_compared_with_learned_classifier"],
+                     "candidate_scores_compared_with_learned_classifier", "models_trained_with_normalisation_inspected",
+                     "corpus_lines_of_same_width_normaliser_keys"],
     }
 
 
@@ -428,7 +490,8 @@ def run_c19(tier, seed, res):
                      "non_empty_comments", "dictionaries_empty", "corrupted_csv_runs", "new_dictionaries_with_repeated_record",
                      "dictionaries_with_repeated_record", "new_dictionaries_with_word_of_8_or_more_chars",
                      "runs_with_dump_and_replace_together", "weights_with_more_than_24_significant_bits",
-                     "edits_adding_or_removing_entry_that_cancels_its_suffix", "dumps_over_a_longer_existing_file"],
+                     "edits_adding_or_removing_entry_that_cancels_its_suffix", "dumps_over_a_longer_existing_file",
+                     "edits_installing_a_million_records"],
     }
 
 
@@ -448,7 +511,8 @@ def run_c20(tier, seed, res):
         "required": ["streams_with_empty_first_line", "streams_with_rejected_line", "models_with_tag_models",
                      "lines_checked_by_reference_parser", "evaluate_char_runs_compared", "evaluate_word_runs_compared",
                      "mode_equivalence_pairs_compared", "references_with_normaliser_keys_sprinkled",
-                     "references_repeated_as_width_variant", "reference_sentences_of_white_space_only"] + ["predict_runs_flags_%s" % format(m, "04b") for m in range(16)],
+                     "references_repeated_as_width_variant", "reference_sentences_of_white_space_only",
+                     "streams_with_crlf_terminators", "streams_with_line_ending_in_cr"] + ["predict_runs_flags_%s" % format(m, "04b") for m in range(16)],
     }
 
 
@@ -535,6 +599,32 @@ def run_c13(tier, seed, res):
         names = QUICK_FEATURE_SETS
         n_cases = 4000
     per_build = run_feature_matrix(res, names, n_cases, tier, seed)
+    # models produced by the real trainer, analysed by every build; traces compared with the default build's
+    scratch = os.path.join(E.BUILD, "scratch", "C13-trained")
+    os.makedirs(scratch, exist_ok=True)
+    n_tr = sz(tier, 160, 1600)
+    E.run_workload(res, "mon", "C13t", n_tr, tier, seed, extra=["--scratch", scratch], per_case_timeout=5.0)
+    mtraces = {}
+    for n in names:
+        tag = "featm-%s" % n
+        E.run_workload(res, "feat:" + n, "C13m", n_tr, tier, seed, tag=tag, extra=["--scratch", scratch], chunks=max(1, E.NCPU // 2))
+        mtraces[n] = _read_traces(tag)
+    base = mtraces[names[0]]
+    compared = 0
+    for n in names[1:]:
+        for key, (sc, lb, _tg) in base.items():
+            if key not in mtraces[n]:
+                continue
+            compared += 1
+            sc2, lb2, _ = mtraces[n][key]
+            if sc != sc2 or lb != lb2:
+                res.violations.append({
+                    "t": "violation", "sig": "C13:%s_of_trained_model_differ_between_feature_configurations" % ("scores" if sc != sc2 else "boundaries"),
+                    "case": key[0], "seed": seed, "workload": "C13m", "build": "feat:" + n, "extra_args": ["--scratch", scratch],
+                    "detail": {"text_index": key[1], "build_a": names[0], "build_b": n, "digests_a": [sc, lb], "digests_b": [sc2, lb2],
+                               "note": "the model file is <scratch>/trained-<case>.bin, written by the C13t workload of the same seed"},
+                })
+    res.add_counter("cross_build_comparisons_of_trained_models", compared)
     return {
         "rule": "the same seeded workload (generated models with/without tag models x texts, as for C01/C06) is executed by one binary per feature "
                 "configuration; every build checks scores, decisions, tags, tag scores and its own serialise/deserialise round trip against the "
@@ -542,7 +632,8 @@ def run_c13(tier, seed, res):
                 "tag prediction); non-trivial iff a prediction was traced; distinct = distinct (model, texts) digests over all builds",
         "required": ["cross_build_trace_comparisons", "predictions_traced", "cases_with_tag_models", "type_window_up_to_3",
                      "type_window_above_3", "weight_vectors_longer_than_8", "converted_kytea_models_scored_in_this_build",
-                     "converted_kytea_models_with_type_byte_0x04"],
+                     "converted_kytea_models_with_type_byte_0x04", "cross_build_comparisons_of_trained_models",
+                     "trained_configs_with_char_window_below_type_window"],
         "extra": {"builds": per_build},
     }
 
